@@ -44,19 +44,41 @@ def loopvar(fn, loop):
     return ("var", d["n"], d["d"]), d
 
 
+def element_bodies(F, fn):
+    """Every 'for each element of a container' in fn, whatever its form: a range-for, or std::for_each over
+    [C.begin(), C.end()) with a one-parameter lambda. Each: dict(node, container, var (element variable), is_ref (the
+    variable is a mutable reference to the element), host (function holding the body), body (node id in host))."""
+    out = []
+    for lp in fn.nodes:
+        if lp["k"] == "CXXForRangeStmt":
+            v, d = loopvar(fn, lp)
+            out.append({"node": lp, "container": fn.term(lp["range"]), "var": v, "is_ref": bool(d.get("is_ref")) and not d.get("is_const"),
+                        "host": fn, "body": lp["body"]})
+        elif lp["k"] in CALLS and (lp.get("fq") or "") == "std::for_each" and len(lp.get("args", [])) == 3:
+            a = [fn.term(x) for x in lp["args"]]
+            if a[0][0] == "call" and a[0][1].split("::")[-1] == "begin" and a[1][0] == "call" and a[1][1].split("::")[-1] == "end" \
+                    and a[0][2] is not None and a[0][2] == a[1][2] and a[2][0] == "lambda":
+                lam = F.functions.get(a[2][1])
+                if lam is not None and len(lam.params) == 1 and lam.body is not None:
+                    p = lam.params[0]
+                    out.append({"node": lp, "container": a[0][2], "var": ("var", p["n"], p["d"]), "is_ref": bool(p.get("ref")) and not p.get("const_ref"),
+                                "host": lam, "body": lam.body})
+    return out
+
+
 def swapped_containers(F, fn, depth=2):
     """(node in fn, container term) for every container all of whose colours get red and blue exchanged once:
     a by-reference range-for over it whose body swaps the loop variable's red/blue once; or a call of a repository
     function that does this to its by-reference parameter."""
     out = []
-    sw = swap_sites(fn, F)
-    for lp in [nd for nd in fn.nodes if nd["k"] == "CXXForRangeStmt"]:
-        v, d = loopvar(fn, lp)
-        inside = [x for x in sw if x[0]["id"] in fn.subtree(lp["body"]) and x[1] == v]
-        nested = [l2 for l2 in fn.nodes if l2["k"] == "CXXForRangeStmt" and l2["id"] != lp["id"] and l2["id"] in fn.subtree(lp["body"])
-                  and any(x[0]["id"] in fn.subtree(l2["id"]) for x in inside)]
-        if len(inside) == 1 and not nested and d.get("is_ref"):
-            out.append((lp, fn.term(lp["range"])))
+    for eb in element_bodies(F, fn):
+        h = eb["host"]
+        sw = swap_sites(h, F)
+        inside = [x for x in sw if x[0]["id"] in h.subtree(eb["body"]) and x[1] == eb["var"]]
+        nested = [l2 for l2 in h.nodes if l2["k"] in ("CXXForRangeStmt", "ForStmt", "WhileStmt", "DoStmt") and l2["id"] != eb["node"]["id"] and l2["id"] in h.subtree(eb["body"])
+                  and any(x[0]["id"] in h.subtree(l2["id"]) for x in inside)]
+        if len(inside) == 1 and not nested and eb["is_ref"]:
+            out.append((eb["node"], eb["container"]))
     if depth > 0:
         for nd in fn.nodes:
             if nd["k"] == "CXXMemberCallExpr" and not nd.get("args") and "obj" in nd:
